@@ -909,7 +909,7 @@ def run_layout_cases(ctx, be, cases):
 
 def layout_case(ctx, be, kind, c, dtype, chunks, shape, x, bl, sl, blocks, keys, norm, mos):
     nd = len(shape)
-    sig = 'op=layout;backend=%s;layout=%s;via=%s;' % (kind, c['layout'], c['via'])
+    sig = 'op=layout;backend=%s;layout=%s;' % (kind, c['layout'])
     store, name, _ = be.new(kind, shape, dtype, NAMED1[kind])
     with dask.config.set(**SYNC):
         try:
@@ -931,6 +931,26 @@ def layout_case(ctx, be, kind, c, dtype, chunks, shape, x, bl, sl, blocks, keys,
                          'storing a chunk with this memory layout failed (model: every put succeeds)')
             be.done()
             return
+        n0 = len(ctx.disagreements)
+        # read back: chunk by chunk and as a lazy array
+        try:
+            got = [np.asarray(store.get_chunk(name, s, dtype)) for s in sl]
+            whole = np.asarray(store.get_dask_array(name, tuple(chunks), dtype, errors='raise').compute())
+        except Exception as e:
+            ctx.disagree(sig + 'symptom=get_raised:%s' % type(e).__name__, c, repr(e)[:200], 'data',
+                         'reading back raised where the round trip must succeed')
+            be.done()
+            return
+    for s, g in zip(sl, got):
+        if not same(g, sub(x, s)):
+            ctx.disagree(sig + 'symptom=wrong_chunk', c, g.ravel()[:8].tolist(), None,
+                         'chunk read back differs from the chunk written (element order, dtype or shape)',
+                         spec=sub(x, s).ravel()[:8].tolist())
+            break
+    if len(ctx.disagreements) == n0 and not same(whole, x):
+        ctx.disagree(sig + 'symptom=wrong_data', c, whole.ravel()[:8].tolist(), None,
+                     'array read back differs from the array written', spec=x.ravel()[:8].tolist())
+    if len(ctx.disagreements) == n0:
         # the objects written: header says C order and the body lists the logical elements in C order (model)
         if kind != 'dict':
             for b_, s, key, mo in zip(bl, sl, keys, mos):
@@ -947,32 +967,14 @@ def layout_case(ctx, be, kind, c, dtype, chunks, shape, x, bl, sl, blocks, keys,
                 want = np.array(sub(x, s), order='C').reshape(-1)[np.array(mbody, dtype=np.int64)] if mbody else np.zeros(0, dtype)
                 if (bool(fo), list(oshape), odt) != (bool(mfo), mshape, dtype):
                     ctx.disagree(sig + 'symptom=object_header', c, [bool(fo), list(oshape), str(odt)], [bool(mfo), mshape, str(dtype)],
-                                 'header of the stored .npy object differs from the model (fortran_order, shape, dtype)')
+                                 'header of the stored .npy object differs from the model (fortran_order, shape, dtype)', kind='tie')
                     break
                 if body != want.tobytes():
                     ctx.disagree(sig + 'symptom=object_body', c, list(body[:16]), list(want.tobytes()[:16]),
-                                 'body of the stored .npy object is not the C-order listing of the chunk')
+                                 'body of the stored .npy object is not the C-order listing of the chunk', kind='tie')
                     break
                 if mdec != list(range(len(mdec))):
                     ctx.disagree(sig + 'symptom=model_decode', c, None, mdec, 'model: decode(encode) is not the identity', kind='tie')
-        # read back: chunk by chunk and as a lazy array
-        try:
-            got = [np.asarray(store.get_chunk(name, s, dtype)) for s in sl]
-            whole = np.asarray(store.get_dask_array(name, tuple(chunks), dtype, errors='raise').compute())
-        except Exception as e:
-            ctx.disagree(sig + 'symptom=get_raised:%s' % type(e).__name__, c, repr(e)[:200], 'data',
-                         'reading back raised where the round trip must succeed')
-            be.done()
-            return
-    for s, g in zip(sl, got):
-        if not same(g, sub(x, s)):
-            ctx.disagree(sig + 'symptom=wrong_chunk', c, g.ravel()[:8].tolist(), None,
-                         'chunk read back differs from the chunk written (element order, dtype or shape)',
-                         spec=sub(x, s).ravel()[:8].tolist())
-            break
-    if not same(whole, x):
-        ctx.disagree(sig + 'symptom=wrong_data', c, whole.ravel()[:8].tolist(), None,
-                     'array read back differs from the array written', spec=x.ravel()[:8].tolist())
     be.done()
 
 
@@ -1148,8 +1150,8 @@ def multi_case(ctx, be, c, parts, meaning, mo):
     shape = tuple(sum(x) for x in big)
     nd = len(shape)
     same_layout = len({repr(p[1]) for p in parts}) < len(parts)
-    sig = 'op=multi;stores=%s;combos=%d;parts=%s;' % (
-        '+'.join(c['stores']), len(c['combos']),
+    sig = 'op=multi;nstores=%d;parts=%s;' % (
+        len({cb[0] for cb in c['combos']}),
         'single' if len(parts) == 1 else 'equal_layout' if same_layout else 'distinct_layout')
     npos = int(np.prod(shape, dtype=int))
     # labels as the model numbers them: did * 100000 + pi * 1000 + C-order position inside the part
